@@ -96,13 +96,15 @@ def shrink(mod, case, viol, runner, budget_s=20.0):
                     c["files"][rel] = "\n".join(keep)
                     return c
                 changed |= _ddmin_list(lambda rel=rel: best["files"][rel].split("\n"), mk, attempt, allow_empty=False)
-        # 6. smaller rule documents
-        for rel in sorted(best["files"]):
+        # 6. smaller rule documents (never when a document fault is in play: the faulted
+        #    document must stay "the valid rule plus exactly one edit")
+        no_yaml = bool((best.get("extra") or {}).get("no_yaml_shrink"))
+        for rel in ([] if no_yaml else sorted(best["files"])):
             content = best["files"][rel]
             if isinstance(content, str) and rel.endswith((".yaml", ".yml")):
                 changed |= _shrink_yaml(best, rel, attempt, lambda: best)
         # 6b. rule documents carried inside write ops / replace faults
-        for oi, op in enumerate(best["ops"]):
+        for oi, op in ([] if no_yaml else list(enumerate(best["ops"]))):
             if op["op"] == "write" and isinstance(op.get("content"), str) and op["path"].endswith((".yaml", ".yml")):
                 changed |= _shrink_yaml_in_op(best, oi, None, attempt, lambda: best)
             for fi, f in enumerate(op.get("faults") or []):
